@@ -37,6 +37,7 @@ class Analyzer(Interp):
         self.index_log = []
         self.watch_access = None       # predicate(buffer id): log (offset, count) of every access to such a buffer
         self.access_log = []
+        self.wrap_fns = None           # predicate(function qname): unsigned + - * << in such functions must provably not wrap
         self.return_hook = None        # callable(analyzer, fn, return node, state, frame) before a return expression is evaluated
         self._gbusy = set()
 
@@ -152,6 +153,12 @@ class Analyzer(Interp):
         return super().index(fn, n, st, base, idx, t, what)
 
     def arith(self, fn, n, st, op, a, b, t):
+        if self.wrap_fns is not None and self.recording and op in ('+', '-', '*', '<<') and isinstance(a, Lin) and isinstance(b, Lin) and self.wrap_fns(fn.q):
+            rng = type_range(t)
+            if rng and rng[0] == 0:
+                exact = a + b if op == '+' else a - b if op == '-' else (a * b) if op == '*' else (a.scale(1 << int(b.c)) if b.is_const() and 0 <= b.c < 63 else None)
+                self.oblige('wrap', fn, n, st, [None] if exact is None else [-exact, exact - rng[1]],
+                            'unsigned `%s` does not wrap around (the mathematical result fits %s)' % (op, t))
         r = super().arith(fn, n, st, op, a, b, t)
         if op == '^' and isinstance(a, Lin) and isinstance(b, Lin) and isinstance(r, Lin):
             self.fact(st, ('xor', fn.nodes[n].get('l'), a, b, r))
@@ -1691,7 +1698,7 @@ def analyse(P, entries, inline=None, contracts=None, max_depth=None):
     return sites, info
 
 
-def report(ck, rule_prefix, sites, kinds=('bound', 'chrono', 'loop', 'range')):
+def report(ck, rule_prefix, sites, kinds=('bound', 'chrono', 'loop', 'range', 'wrap')):
     """Turn merged site verdicts into check obligations with keys stable under unrelated edits:
     <prefix>.<kind>/<function>/<label>#<ordinal in source order>."""
     from .prog import short
